@@ -25,7 +25,7 @@ FILES = {
     # C12 = the chain of preservation/no-panic theorems of the individual passes
     "C12": [("C12", ["Scc.Pipeline"]), ("C15", ["Scc.Fun.Check"]), ("C02", ["Scc.Fun2Core.Model"]), ("C03", ["Scc.Core.Focus"]), ("C04", ["Scc.Core2AxCut.Model"]), ("C05", ["Scc.AxCut.Linearize"])],
     # C01 = composition theorem over the whole pipeline model + its links
-    "C01": [("C01", ["Scc.Pipeline"]), ("C12", []), ("C20Full", []), ("C02Sem", []), ("C04Sem", []), ("C06Generic", [])],
+    "C01": [("C01", ["Scc.Pipeline"]), ("C01Checks", []), ("C06Capacity", []), ("C12", []), ("C20Full", []), ("C02Sem", []), ("C03", []), ("C04Sem", []), ("C06Generic", [])],
 }
 
 def theorems(path):
